@@ -13,7 +13,7 @@ from sa.cfg import handler_types
 from sa.reach import guarded_reachable
 from sa.report import Ctx
 from sa.srcmodel import AnalysisError, FunctionInfo, Program, ancestors, dotted, norm, parent, unparse, walk_no_nested
-from sa.util import calls_in, cfg_nodes_containing, cfg_of, ext_callee, key, kwarg, path_text, stmt_of, stores_of, where
+from sa.util import calls_in, cfg_nodes_containing, cfg_of, ext_callee, key, kwarg, kwarg_deep, path_text, stmt_of, stores_of, where
 
 EXCLUDED_MODULES = {"_griffe.tests": "test-helper module shipped in the package (touches sys.modules on purpose)"}
 
@@ -189,7 +189,10 @@ def run(prog: Program, ctx: Ctx) -> None:  # noqa: PLR0912,PLR0915
                 if not any(flag in t.params for t in accepting):
                     continue
                 n_fw += 1
-                v = kwarg(call, flag)
+                v, unresolved = kwarg_deep(fn, call, flag)
+                if v is None and unresolved:
+                    ctx.note(f"R2: {fn.qualname} forwards keyword arguments through an unresolved ** mapping; `{flag}` forwarding not judged")
+                    continue
                 ok = isinstance(v, ast.Name) and v.id == flag and not stores_of(fn.node, flag)
                 ctx.ob("R2", f"forward|{fn.qualname}->{accepting[0].qualname}|{flag}", ok,
                        f"{fn.name} forwards its `{flag}` parameter unchanged", where(fn, call))
